@@ -75,6 +75,7 @@ func H_DAG() {
 	cfg := histParams()
 	cfg.K = 0
 	h := newHist(cfg)
+	propOverride = []string{"", "C01", "C02", "C03"}[vx.Param("AS", 3)] // the property whose check runs this harness
 	n := vx.Param("N", 4)
 	es := buildDAG(h, n)
 	cmp := h.sortFn()
@@ -85,7 +86,7 @@ func H_DAG() {
 	L := newLogOpt(h.api, h.ids[0], &ipfslog.LogOptions{SortFn: cmp, Entries: orderedMapOf(es)})
 	checkHeads(L, "log over a DAG")
 	v := L.Values().Slice()
-	vx.Assert("C03", len(v) == n && len(hashSet(v)) == n, "Values() contains each entry of the log exactly once (DAG)")
+	vx.Assert(pp("C03"), len(v) == n && len(hashSet(v)) == n, "Values() contains each entry of the log exactly once (DAG)")
 	pos := map[string]int{}
 	for i, e := range v {
 		pos[hstr(e)] = i
@@ -98,17 +99,17 @@ func H_DAG() {
 			}
 		}
 	}
-	vx.Assert("C03", causal, "every entry comes after all of its predecessors (DAG)")
+	vx.Assert(pp("C03"), causal, "every entry comes after all of its predecessors (DAG)")
 	for i := 0; i+1 < len(v); i++ {
 		r, err := cmp(v[i], v[i+1])
-		vx.Assert("C03", err == nil && r < 0, "Values() is sorted by the configured ordering (DAG)")
+		vx.Assert(pp("C03"), err == nil && r < 0, "Values() is sorted by the configured ordering (DAG)")
 	}
 	rev := make([]iface.IPFSLogEntry, n)
 	for i, e := range es {
 		rev[n-1-i] = e
 	}
 	L2 := newLogOpt(h.api, h.ids[0], &ipfslog.LogOptions{SortFn: cmp, Entries: orderedMapOf(rev)})
-	vx.Assert("C03", sameSeq(L2.Values().Slice(), v), "Values() depends only on the set of entries, not on their arrival order (DAG)")
+	vx.Assert(pp("C03"), sameSeq(L2.Values().Slice(), v), "Values() depends only on the set of entries, not on their arrival order (DAG)")
 	if L.Heads().Len() > 1 {
 		vx.Cover("forked-dag")
 	}
@@ -138,15 +139,15 @@ func H_DAG() {
 		A := newLogOpt(h.api, h.ids[0], &ipfslog.LogOptions{SortFn: cmp, Entries: orderedMapOf(a)})
 		B := newLogOpt(h.api, h.ids[1%h.cfg.W], &ipfslog.LogOptions{SortFn: cmp, Entries: orderedMapOf(b)})
 		_, err := A.Join(B, -1)
-		vx.Assert("C02", err == nil, "merging a valid sub-log succeeds (DAG)")
+		vx.Assert(pp("C02"), err == nil, "merging a valid sub-log succeeds (DAG)")
 		checkHeads(A, "merge of two closed sub-logs of a DAG")
 		want := union(hashSet(a), hashSet(b))
-		vx.Assert("C01", sameSet(hashSet(entriesOf(A)), want), "the merge holds the union of both sub-logs (DAG)")
+		vx.Assert(pp("C01"), sameSet(hashSet(entriesOf(A)), want), "the merge holds the union of both sub-logs (DAG)")
 		av := A.Values().Slice()
-		vx.Assert("C03", len(av) == len(want) && len(hashSet(av)) == len(av), "Values() of the merge contains each entry exactly once (DAG)")
+		vx.Assert(pp("C03"), len(av) == len(want) && len(hashSet(av)) == len(av), "Values() of the merge contains each entry exactly once (DAG)")
 		for i := 0; i+1 < len(av); i++ {
 			r, err := cmp(av[i], av[i+1])
-			vx.Assert("C03", err == nil && r < 0, "Values() of the merge is sorted (DAG)")
+			vx.Assert(pp("C03"), err == nil && r < 0, "Values() of the merge is sorted (DAG)")
 		}
 		vx.Cover("merged-sublogs")
 	}
